@@ -196,14 +196,32 @@ theorem return_object_iff_returned_normally (c : Cfg) (inj : Inj) (co ro : Optio
   exact ⟨this.1.1.2.1.1, this.1.1.2.1.2, this.1.1.2.2⟩
 
 /-- method_exception_object fires exactly when the call ends in a fault — whichever stage failed, with a
-    Fault or with any other exception — and at most once -/
+    Fault or with any other exception — and at most once.  (One documented variant: when the function raises
+    a Redirect whose do_redirect() itself raises, the fault is announced by method_redirect_exception
+    instead; never both.) -/
 theorem exception_object_iff_fault (c : Cfg) (inj : Inj) (co ro : Option ExcKind)
     (h : (run facts14 c inj co ro).escaped = false) :
-    ((methodView (run facts14 c inj co ro).steps).contains (.ev .exceptionObject) = (truth inj co ro).faulted) ∧
-    (methodView (run facts14 c inj co ro).steps).count (.ev .exceptionObject) ≤ 1 := by
+    (((methodView (run facts14 c inj co ro).steps).contains (.ev .exceptionObject) ||
+      (methodView (run facts14 c inj co ro).steps).contains (.ev .redirectException)) = (truth inj co ro).faulted) ∧
+    (methodView (run facts14 c inj co ro).steps).count (.ev .exceptionObject) +
+      (methodView (run facts14 c inj co ro).steps).count (.ev .redirectException) ≤ 1 := by
   have := automaton_sound _ _ _ _ (trace_spec c inj co ro h)
   simp only [clauses, clExceptionObject, Bool.and_eq_true, beq_iff_eq, decide_eq_true_eq] at this
-  exact ⟨this.1.2.1, this.1.2.2⟩
+  exact ⟨this.1.2.1.1, this.1.2.1.2⟩
+
+/-- a Redirect raised by the function is not a fault: method_redirect, then the return document and string
+    events, no method_return_object and no method_exception_object -/
+theorem redirect_is_not_a_fault (c : Cfg) (k : ExcKind) (b : Bool)
+    (h : (run facts14 c ⟨.redirect, k, b⟩ none none).escaped = false) :
+    final (methodView (run facts14 c ⟨.redirect, k, b⟩ none none).steps) = .done true false false :=
+  trace_spec c ⟨.redirect, k, b⟩ none none h
+
+/-- a ?wsdl request to the WSGI transport also opens and closes exactly one method context -/
+theorem wsdl_request_created_closed :
+    methodView facts14.wsdlSteps = [.ev .created, .ev .closed] ∧ transportView facts14.wsdlSteps = [.wsdl] ∧
+    methodView facts14.wsdlFailSteps = [.ev .created, .ev .closed] ∧
+    transportView facts14.wsdlFailSteps = [.wsdlException] := by
+  decide
 
 /-- ... followed by the matching document and string events in that order, then closed, and none of
     the events of the other outcome (commit-or-rollback listeners see exactly one of the two) -/
@@ -322,9 +340,9 @@ example : methodView (run facts14 ⟨.httpRpc, .wsgi, .void⟩ ⟨.none, .fault,
     = [.ev .created, .ev .call, .user, .ev .returnObject, .ev .returnDocument, .ev .returnString, .ev .closed] := by decide
 -- A registered, E fired, B registered, E fired again, A removed, E fired
 example : Mgr.empty.runHistory [Op.add 1 7, .fire 1, .add 1 8, .fire 1, .del 1 7, .fire 1, .fire 2] = [[7], [7, 8], [8], []] := by decide
--- the table is not empty, the automaton accepts five traces
-example : allRows.length = 1296 := by decide +kernel
-example : (lang 9 .start).length = 5 := by decide +kernel
+-- the table is not empty, the automaton accepts seven traces
+example : allRows.length = 1728 := by decide +kernel
+example : (lang 9 .start).length = 7 := by decide +kernel
 -- runs that do not escape exist for every kind of failure; one that escapes exists
 example : (run facts14 ⟨.soap11, .wsgi, .value⟩ ⟨.serialize, .exc, true⟩ none none).escaped = false := by decide
 example : (run facts14 ⟨.soap11, .serverBase, .value⟩ ⟨.serialize, .exc, true⟩ none none).escaped = true := by decide
